@@ -1,0 +1,10 @@
+//go:build verif
+
+// Contracts for package newick, checked by /verif (govc). Comments only.
+
+package newick
+
+//@ func (*io/newick.Parser).Parse
+//@   flag treeop
+//@   requires p != nil
+//@   ensures [tree_or_error] result1 == nil ==> result0 != nil
